@@ -5,6 +5,7 @@
 import GoIpa.Gen.FrConsts
 import GoIpa.Model.FrLimbs
 import GoIpa.Model.Field
+import GoIpa.Model.FrInverse
 namespace GoIpa.Tie.FrConsts
 open GoIpa GoIpa.Limbs
 
@@ -34,5 +35,11 @@ theorem lex_half : limbsVal Gen.lexHalf = (R - 1) / 2 + 1 := by decide +kernel
 theorem exponents :
     natOfHex Gen.legendreExpHex = (R - 1) / 2 ∧ (R - 1) % 32 = 0 ∧ (R - 1) / 32 % 2 = 1 ∧
     natOfHex Gen.sqrtExpHex = ((R - 1) / 32 - 1) / 2 := by decide +kernel
+
+/-- `Inverse` starts from `u = q`, `s = 2^512 mod r` and uses no other constant than the modulus
+limbs, limb indices and the shift 63 -/
+theorem inverse_constants :
+    limbsVal Gen.inverseInitU = R ∧ limbsVal Gen.inverseInitS = FrInv.rSquare ∧ FrInv.rSquare = 2 ^ 512 % R ∧
+    (∀ x ∈ Gen.inverseLiterals, x ∈ Gen.qElement ∨ x ∈ [0, 1, 2, 3, 63]) := by decide +kernel
 
 end GoIpa.Tie.FrConsts
